@@ -25,7 +25,7 @@ RULE = (
     "+ new default EdgeCaseHandler, direct panoptic_evaluate with defaults, construction (+ attempted use) of two evaluators with unusual argument combinations (decision metric outside the default metric list; RVD decision at 0 with all flags; default instance metrics with other global metrics); ALL histories of length <= 3 (thorough <= 4 on the quick alphabet), each in a pristine forked process; "
     "semantic histories: ALL histories of length <= 4 (thorough 5) over {new evaluator, new evaluator sharing the approximator object, evaluate 1-D / 2-D / 3-D input with diagonal contacts on either evaluator}; "
     "(ii) result_all{T,F} x save_group_times{None,T,F} x log_times{None,T,F} x verbose{None,T,F} x constructor flags 2^3 x 3 inputs x 2 configurations; "
-    "(iii) all pairs of G1(4,2) with >= 2 tasks: serial vs every task execution order of each pool call; 64 (thorough 512) inputs with the real multiprocessing.Pool. "
+    "(iii) 1 .. 2*cpu_count+7 identical well separated instances x input type (tp must equal the instance count however the work is split); all pairs of G1(4,2) with >= 2 tasks: serial vs every task execution order of each pool call; 64 (thorough 512) inputs with the real multiprocessing.Pool. "
     "non-trivial = histories in which an evaluator is used after another object was constructed or used; distinct by history / option tuple / input"
 )
 ASSUMPTIONS = [
@@ -412,6 +412,10 @@ def blocks(tier):
     n1 = sc.grid_count((4,), 2)
     for lo, hi in sc.ranges(n1, 3):
         B.append(("perm", lo, hi))
+    # numbers of instances around and beyond the number of worker processes
+    ncpu = os.cpu_count() or 4
+    for lo in range(1, 2 * ncpu + 8, 4):
+        B.append(("many", lo, lo + 4))
     nreal = 64 if tier == "quick" else 512
     for k in range(0, nreal, 8):
         B.append(("real", k, k + 8, nreal))
@@ -449,6 +453,10 @@ def run_block(block, acc):
         for i in range(lo, hi):
             for j in range(n):
                 run_case({"kind": "perm", "pi": i, "ri": j}, acc)
+    elif kind == "many":
+        for n in range(block[1], block[2]):
+            for itype in ("MATCHED", "UNMATCHED", "SEMANTIC"):
+                run_case({"kind": "many", "n": n, "itype": itype}, acc)
     elif kind == "real":
         _, lo, hi, nreal = block
         run_case({"kind": "real", "lo": lo, "hi": hi, "n": nreal}, acc)
@@ -508,6 +516,8 @@ def run_case(case, acc):
             acc.violation(sig, case, msg)
         if not viol:
             acc.ok()
+    elif kind == "many":
+        _many(case, acc)
     elif kind == "perm":
         _perm(case, acc)
     elif kind == "real":
@@ -583,6 +593,36 @@ def _perm(case, acc):
                 acc.violation("C15:result_depends_on_task_order", {**case, "call": call_idx, "perm": list(perm)}, f"pred={pred.tolist()} ref={ref.tolist()}: executing the {n} tasks of pool call #{call_idx} in order {perm} changes {d[:6]}")
                 ok = False
     if ok:
+        acc.ok()
+
+
+def _many(case, acc):
+    """n well separated instances, every prediction a 3-voxel run inside a 4-voxel reference run: whatever way the per-instance work
+    is split over workers, tp = n, every IoU = 3/4, rq = 1"""
+    from ..lib import make_evaluator
+
+    n, itype = case["n"], case["itype"]
+    acc.case("many", n, itype)
+    ref = np.zeros(6 * n + 2, dtype=np.uint16)
+    pred = np.zeros(6 * n + 2, dtype=np.uint16)
+    for k in range(n):
+        lab = 1 if itype == "SEMANTIC" else k + 1
+        ref[6 * k + 1 : 6 * k + 5] = lab
+        pred[6 * k + 1 : 6 * k + 4] = lab
+    acc.step()
+    try:
+        ev = make_evaluator(itype, matcher=None if itype == "MATCHED" else ["thr", "IOU", 0.5, False], backend="default" if itype == "SEMANTIC" else "none", instance_metrics=("DSC", "IOU"))
+        o = observe(ev.evaluate(pred.copy(), ref.copy(), verbose=False)["ungrouped"][0], metrics=("DSC", "IOU"), with_global=False)
+    except Exception as e:
+        acc.violation(f"C15:many_raised:{type(e).__name__}", case, f"{n} instances, {itype}: evaluate raised {e!r}")
+        return
+    acc.state("many", n, itype)
+    if n > (os.cpu_count() or 4):
+        acc.nontriv("many", n, itype)
+    good = o["tp"] == n and o["fp"] == 0 and o["fn"] == 0 and isinstance(o["list_IOU"], list) and len(o["list_IOU"]) == n and all(abs(v - 0.75) < 1e-12 for v in o["list_IOU"]) and abs(o["rq"] - 1.0) < 1e-12
+    if not good:
+        acc.violation("C15:result_depends_on_instance_count_vs_workers", case, f"{n} identical well separated instances ({itype}, {os.cpu_count()} CPUs): tp/fp/fn={o['tp']}/{o['fp']}/{o['fn']}, {len(o['list_IOU']) if isinstance(o['list_IOU'], list) else o['list_IOU']} IoU values, rq={o['rq']}; expected tp={n}, every IoU 0.75, rq 1")
+    else:
         acc.ok()
 
 
